@@ -350,6 +350,7 @@ class OfxgetWorld:
         sim = self.sim
         self.net.current_op = f"run{run.n}"
         run.file_before = self.file_bytes()
+        cfg_before = {k: v for k, v in self.fs.walk_files().items() if k.startswith(simfs.ROOT + "/cfg/")}
         sim.log(f"run{run.n}: ofxget {' '.join(a if a != PASSWORD else '<password>' for a in run.argv)}")
         config.CONFIGDIR = pathlib.Path(LIBDIR)
         out = io.StringIO()
@@ -379,6 +380,8 @@ class OfxgetWorld:
             run.exc = clean_exc(e, 140)
         run.stdout = out.getvalue()
         run.file_after = self.file_bytes()
+        cfg_after = {k: v for k, v in self.fs.walk_files().items() if k.startswith(simfs.ROOT + "/cfg/")}
+        run.cfg_changed = sorted(k for k in set(cfg_before) | set(cfg_after) if cfg_before.get(k) != cfg_after.get(k))
         sim.log(f"run{run.n}: " + ("ok" if run.ok else "failed: " + run.exc)
                 + (" (config file changed)" if run.file_after != run.file_before else ""))
         self.net.current_op = None
@@ -409,11 +412,21 @@ class OfxgetWorld:
         # L3: the password never occurs in the file
         if run.file_after is not None and PASSWORD.encode() in run.file_after:
             self.violate("C18", "L3-password", "stored", f"run{run.n}: the configuration file contains the password")
+        else:
+            # ... nor in any other file the program leaves behind (backup copies, scratch files, caches)
+            for path, data in self.fs.walk_files().items():
+                if PASSWORD.encode() in data:
+                    self.violate("C18", "L3-password", "stored-elsewhere",
+                                 f"run{run.n}: the file {path} contains the password")
+                    break
         # L4: a dry run stores nothing
-        if run.dryrun and run.file_after != run.file_before:
-            self.violate("C18", "L4-dryrun", "file-changed", f"run{run.n}: a --dryrun run changed ofxget.cfg")
-        if not run.write and run.file_after != run.file_before:
-            self.violate("C18", "L4-nowrite", "file-changed", f"run{run.n}: a run without --write changed ofxget.cfg")
+        changed = getattr(run, "cfg_changed", [])
+        if run.dryrun and (run.file_after != run.file_before or changed):
+            self.violate("C18", "L4-dryrun", "file-changed",
+                         f"run{run.n}: a --dryrun run changed {', '.join(changed) or 'ofxget.cfg'}")
+        if not run.write and (run.file_after != run.file_before or changed):
+            self.violate("C18", "L4-nowrite", "file-changed",
+                         f"run{run.n}: a run without --write changed {', '.join(changed) or 'ofxget.cfg'}")
         # L1 (precondition): the settings can be put together at all.  Reading the command line and the files may
         # fail only because no URL is set anywhere
         if run.ok is False and run.stage in ("load", "argv", "merge"):
